@@ -1019,6 +1019,11 @@ func runH2History(t *testing.T, vt *vhT, seed int64, nOps int) {
 		}
 		w := newH2World(vt, cfg, lis, withAuth, withQuota)
 		w.shortErr = rng.Intn(3) == 0 // what a too-long datagram looks like to the reader depends on the transport
+		for _, l := range w.lis {
+			if l.pc != nil {
+				l.pc.shortErr = w.shortErr // ... also on the server's own listening socket
+			}
+		}
 		h.w = w
 		var lidOf int
 		w.onCid = func(idx int, key string, bound bool) {
